@@ -9,7 +9,8 @@ import time
 from . import build
 from .facts import Facts
 
-SCRATCH_PARENT = os.path.join(os.environ.get("TMPDIR", "/tmp"), "verif-scratch")
+# one scratch tree per process: two runs (e.g. two properties' thorough tiers) must not share a copy
+SCRATCH_PARENT = os.path.join(os.environ.get("TMPDIR", "/tmp"), "verif-scratch-%d" % os.getpid())
 
 
 def make_copy(repo):
